@@ -630,62 +630,7 @@ def rule_t6(repo, col):
                    construct="Term.__repr__: prefix operand, %s" % what, function="Term.__repr__")
 
 
-def _fold_text(e, tokens):
-    """Text denoted by a string-building expression, with the sources in `tokens` replaced by their marker; None when not foldable.
-    Understands literals, `fmt % x` / `fmt % (x, y)` with %s, and `fmt.format(x, y)` with {} / {!s} / {0}-style fields."""
-    src = norm(e)
-    if src in tokens:
-        return tokens[src]
-    if isinstance(e, ast.Call) and dotted(e.func) == "str" and len(e.args) == 1:
-        return _fold_text(e.args[0], tokens)
-    if isinstance(e, ast.Constant) and isinstance(e.value, str):
-        return e.value
-    if isinstance(e, ast.BinOp) and isinstance(e.op, ast.Add):
-        a, b = _fold_text(e.left, tokens), _fold_text(e.right, tokens)
-        return None if a is None or b is None else a + b
-    if isinstance(e, ast.BinOp) and isinstance(e.op, ast.Mod):
-        fmt = _fold_text(e.left, tokens)
-        args = e.right.elts if isinstance(e.right, ast.Tuple) else [e.right]
-        vals = [_fold_text(a, tokens) for a in args]
-        if fmt is None or any(v is None for v in vals) or fmt.count("%s") != len(vals) or fmt.replace("%s", "").count("%") != 0:
-            return None
-        out = fmt
-        for v in vals:
-            out = out.replace("%s", v, 1)
-        return out
-    if isinstance(e, ast.Call) and isinstance(e.func, ast.Attribute) and e.func.attr == "format" and not e.keywords:
-        fmt = _fold_text(e.func.value, tokens)
-        vals = [_fold_text(a, tokens) for a in e.args]
-        if fmt is None or any(v is None for v in vals):
-            return None
-        out = []
-        i = 0
-        auto = 0
-        while i < len(fmt):
-            ch = fmt[i]
-            if ch == "{":
-                j = fmt.find("}", i)
-                if j < 0:
-                    return None
-                field = fmt[i + 1:j].split("!")[0].split(":")[0]
-                if field == "":
-                    k = auto
-                    auto += 1
-                elif field.isdigit():
-                    k = int(field)
-                else:
-                    return None
-                if k >= len(vals):
-                    return None
-                out.append(vals[k])
-                i = j + 1
-            elif ch == "}":
-                return None
-            else:
-                out.append(ch)
-                i += 1
-        return "".join(out)
-    return None
+from ..astutil import fold_text as _fold_text  # noqa: E402
 
 
 def rule_t7(repo, col):
